@@ -835,17 +835,22 @@ func rz2SorterCleanup(w *World) {
 		w.undecided("sorter-cleanup|iterator", sortFn.Decl.Pos(), "Sorter.Sort no longer returns a function literal")
 		return
 	}
-	var deferred *ast.FuncLit
+	// the deferred cleanup: a function literal, or a method of the Sorter (e.g. `defer s.reset()`)
+	var deferredBody *ast.BlockStmt
 	for _, s := range iter.Body.List {
 		if ds, ok := s.(*ast.DeferStmt); ok {
 			if fl, ok := ds.Call.Fun.(*ast.FuncLit); ok {
-				deferred = fl
+				deferredBody = fl.Body
+			} else if f := callee(info, ds.Call); f != nil && f.Pkg() == p.Types {
+				if d := w.decls[f.Origin()]; d != nil && d.Body != nil {
+					deferredBody = d.Body
+				}
 			}
 		}
 	}
 	need := map[string]bool{"state": false, "stack": false, "iterating": false}
-	if deferred != nil {
-		ast.Inspect(deferred.Body, func(x ast.Node) bool {
+	if deferredBody != nil {
+		ast.Inspect(deferredBody, func(x ast.Node) bool {
 			switch e := x.(type) {
 			case *ast.CallExpr:
 				if isBuiltinCall(info, e, "clear") && len(e.Args) == 1 {
@@ -881,8 +886,8 @@ func rz2SorterCleanup(w *World) {
 		}
 	}
 	sortStrings(missing)
-	if deferred != nil && len(missing) == 0 {
-		w.ok("sorter-cleanup", deferred.Pos(), "the iterator defers a cleanup that clears Sorter.state, resets Sorter.stack and clears Sorter.iterating: no mark survives an exhausted, abandoned or panicking iteration")
+	if deferredBody != nil && len(missing) == 0 {
+		w.ok("sorter-cleanup", deferredBody.Pos(), "the iterator defers a cleanup that clears Sorter.state, resets Sorter.stack and clears Sorter.iterating: no mark survives an exhausted, abandoned or panicking iteration")
 	} else {
 		w.violation("sorter-cleanup", iter.Pos(), "the iterator returned by Sorter.Sort does not reset "+strings.Join(missing, ", ")+" in a deferred function of its own: after an early break, a second range over the same sequence, or two sequences from one Sorter, stale marks make nodes disappear or produce a false cycle panic on a DAG")
 	}
